@@ -74,6 +74,12 @@ func (g *c16Gen) operand(d int) *Node {
 	case k < 4:
 		return Op("=", TBool, Op([]string{"+", "*", "add"}[g.r.Intn(3)], TInt, g.v(), g.v()), t)
 	case k < 5:
+		if g.r.Intn(3) == 0 {
+			// a string literal that spells a name with a cost entry (a variable, an operator, a class key): data, not a
+			// mention of that name
+			lit := []string{"x0", "x1", "x2", "x3", "q0", "q1", ">", "+", "add", "not", "variable", "operator", "and", "if"}[g.r.Intn(14)]
+			return Op("and", TBool, Op("=", TBool, Var(fmt.Sprintf("s%d", g.r.Intn(3)), TStr), Lit(lit)), Op("<", TBool, Lit(int64(0)), t))
+		}
 		return Op("in", TBool, g.v(), Lit([]int64{t.Val.(int64), t.Val.(int64) + 1}))
 	case k < 6:
 		return Op("cpos", TBool, Op("+", TInt, g.v(), t))
